@@ -107,6 +107,7 @@ type Run struct {
 	pendingVerify []string
 	gcMoved       map[string]map[uint64]bool // versions written back by a value-log GC rewrite
 	droppedMarkers map[string][]uint64        // delete/expired markers discarded by compactions
+	vlogEntries   map[uint32][]badger.VerifLogEntry
 	drops         []*dropRec
 	dropsActive   int
 	maxDiscardTs  uint64 // highest discard watermark any compaction used so far
